@@ -408,11 +408,13 @@ def iterjoin(left, right, lkey, rkey, leftouter=False, rightouter=False,
     # loop until *either* of the iterators is exhausted
     # initialise here to handle empty tables
     lkval, rkval = Comparable(None), Comparable(None)
+    rstarted = False  # no row group obtained from the right table yet
     try:
 
         # pick off initial row groups
         lkval, lrowgrp = next(lgit)
         rkval, rrowgrp = next(rgit)
+        rstarted = True
 
         while True:
             if lkval < rkval:
@@ -439,7 +441,7 @@ def iterjoin(left, right, lkey, rkey, leftouter=False, rightouter=False,
 
     # make sure any left rows remaining are yielded
     if leftouter:
-        if lkval > rkval:
+        if lkval > rkval or not rstarted:
             # yield anything that got left hanging
             for row in joinrows(lrowgrp, None):
                 yield tuple(row)
@@ -623,11 +625,13 @@ def iterantijoin(left, right, lkey, rkey):
 
     # loop until *either* of the iterators is exhausted
     lkval, rkval = Comparable(None), Comparable(None)
+    rstarted = False  # no row group obtained from the right table yet
     try:
 
         # pick off initial row groups
         lkval, lrowgrp = next(lgit)
         rkval, _ = next(rgit)
+        rstarted = True
 
         while True:
             if lkval < rkval:
@@ -647,7 +651,7 @@ def iterantijoin(left, right, lkey, rkey):
         pass
 
     # any left over?
-    if lkval > rkval:
+    if lkval > rkval or not rstarted:
         # yield anything that got left hanging
         for row in lrowgrp:
             yield tuple(row)
